@@ -16,9 +16,9 @@
      BER decoder (SEQUENCE_decode_ber + OPEN_TYPE_ber_get), UPER encoder and
      decoder (OPEN_TYPE_encode_uper / OPEN_TYPE_uper_get, per_opentype.c:
      length-prefixed octets holding the complete inner encoding).
-   [std = true] is the reading of X.681/X.690, [std = false] what the C does
-   where it is known to deviate (an open-type member without a tag of its own
-   cannot be BER-decoded).  Identifier values are [VInt] (INTEGER identifiers,
+   An open-type member without a tag of its own is decoded by the selected
+   type directly (SEQUENCE_decode_ber accepts any tag for such a member, as it
+   does for ANY).  Identifier values are [VInt] (INTEGER identifiers,
    NativeInteger cells) or [VOct] (OBJECT IDENTIFIER identifiers: the contents
    octets; OBJECT_IDENTIFIER_t is an OCTET STRING to compare_struct). *)
 From Coq Require Import ZArith List Bool.
@@ -141,23 +141,23 @@ Definition der_frame (f : frame) (fv : fval) : option (list Z) :=
 (* OPEN_TYPE_ber_get under SEQUENCE_decode_ber: the selected type's decoder runs on
    the member's bytes; no other row is tried.  Without a tag of its own the member
    has tag -1 in the member table and no entry in tag2el: the SEQUENCE decoder
-   rejects whatever tag comes ("Unexpected tag"). *)
-Definition dec_open (std : bool) (tag : option Z) (t : ty) (bs : list Z) : option (val * list Z) :=
+   hands whatever tag comes to the member (like ANY), i.e. to the selected type. *)
+Definition dec_open (tag : option Z) (t : ty) (bs : list Z) : option (val * list Z) :=
   match tag with
   | Some tg => in_cons tg bs (ber_dec t)
-  | None => if std then ber_dec t bs else None
+  | None => ber_dec t bs
   end.
 
-Fixpoint dec_opens (std : bool) (tags : list (option Z)) (tys : list ty) (i : nat) (bs : list Z)
+Fixpoint dec_opens (tags : list (option Z)) (tys : list ty) (i : nat) (bs : list Z)
   : option (list oval * list Z) :=
   match tags with
   | [] => Some ([], bs)
   | tag :: tags' =>
       match tys with
       | t :: tys' =>
-          match dec_open std tag t bs with
+          match dec_open tag t bs with
           | Some (v, r) =>
-              match dec_opens std tags' tys' i r with
+              match dec_opens tags' tys' i r with
               | Some (ovs, r') => Some ((i, v) :: ovs, r')
               | None => None
               end
@@ -167,7 +167,7 @@ Fixpoint dec_opens (std : bool) (tags : list (option Z)) (tys : list ty) (i : na
       end
   end.
 
-Definition dec_frame_body (std : bool) (f : frame) (c : list Z) : option (fval * list Z) :=
+Definition dec_frame_body (f : frame) (c : list Z) : option (fval * list Z) :=
   match ber_dec (f_idt f) c with
   | Some (idv, r) =>
       match f_opens f with
@@ -175,7 +175,7 @@ Definition dec_frame_body (std : bool) (f : frame) (c : list Z) : option (fval *
       | _ =>
           match select (f_tbl f) idv with
           | Some (i, tys) =>
-              match dec_opens std (f_opens f) tys i r with
+              match dec_opens (f_opens f) tys i r with
               | Some (ovs, r') => Some ((idv, ovs), r')
               | None => None
               end
@@ -185,11 +185,11 @@ Definition dec_frame_body (std : bool) (f : frame) (c : list Z) : option (fval *
   | None => None
   end.
 
-Definition ber_dec_frame (std : bool) (f : frame) (bs : list Z) : option (fval * list Z) :=
-  in_cons seq_tag bs (dec_frame_body std f).
+Definition ber_dec_frame (f : frame) (bs : list Z) : option (fval * list Z) :=
+  in_cons seq_tag bs (dec_frame_body f).
 
-Definition ber_decode_frame (std : bool) (f : frame) (bs : list Z) : option (fval * Z) :=
-  match ber_dec_frame std f bs with
+Definition ber_decode_frame (f : frame) (bs : list Z) : option (fval * Z) :=
+  match ber_dec_frame f bs with
   | Some (v, rest) => Some (v, zlen bs - zlen rest)
   | None => None
   end.
